@@ -731,6 +731,55 @@ theorem stakingChanged_backed (e : Env) (s s' : State) (a : Addr) (b : Int) (hb 
   simp only [stakingChanged, hb] at h
   exact stakingHook_backed e s s' a b h
 
+/-! ## the deposit message: the recorded stake is refreshed first -/
+
+/-- **The deposit message in terms of the model's operations.** `Keeper.DepositCollateral` (after the repair: a slash changes
+    what the delegations are worth without any staking hook, so the recorded stake of an existing provider may be stale) is, for
+    an existing provider, the staking hook with the stake recomputed from the delegations followed by the deposit proper; for a
+    new provider it is the deposit proper. Every history theorem below quantifies over arbitrary sequences of exactly these
+    operations. -/
+theorem depositMsg_ops (e : Env) (s s' : State) (a : Addr) (coins : Coins) (h : depositMsg e s a coins = .ok s') :
+    (findProvider s a = none ∧ deposit e s a coins = .ok s') ∨
+    (∃ p s1, findProvider s a = some p ∧ stakingChanged e s a = .ok s1 ∧ deposit e s1 a coins = .ok s') := by
+  unfold depositMsg at h
+  split at h; · cases h
+  split at h
+  · rename_i hf; exact Or.inl ⟨hf, h⟩
+  · rename_i p hf
+    split at h; · cases h
+    rename_i s1 h1
+    exact Or.inr ⟨p, s1, hf, h1, h⟩
+
+/-- **"A deposit succeeds only if the provider's collateral not being withdrawn stays within their bonded stake"** — the bonded
+    stake as the staking module reports it at the time of the deposit (`e.bondedAfter a`, what the delegations are worth now),
+    not a figure recorded at the provider's last staking action. -/
+theorem depositMsg_within_current_stake (e : Env) (s s' : State) (a : Addr) (coins : Coins) (b : Int) (q : Provider)
+    (hq : findProvider s a = some q) (hb : e.bondedAfter a = some b) (h : depositMsg e s a coins = .ok s') :
+    ∃ p', findProvider s' a = some p' ∧ p'.bonded = b ∧ p'.collateral - p'.withdrawing ≤ b := by
+  rcases depositMsg_ops e s s' a coins h with ⟨hn, _⟩ | ⟨p, s1, _, h1, h2⟩
+  · rw [hq] at hn; cases hn
+  · -- after the hook the record holds the current stake
+    have hrec : ∃ p1, findProvider s1 a = some p1 ∧ p1.bonded = b := by
+      simp only [stakingChanged, hb] at h1
+      by_cases hc : q.collateral - q.withdrawing ≤ b
+      · exact ⟨_, (stakingHook_covered e s s1 a b q hq hc h1).1, rfl⟩
+      · exact ⟨_, (stakingHook_shortfall e s s1 a b q hq (by omega) h1).1, rfl⟩
+    obtain ⟨p1, hp1, hb1⟩ := hrec
+    obtain ⟨_, hfind, _⟩ := deposit_effect e s1 s' a coins h2
+    have hback := deposit_backed e s1 s' a coins h2
+    have hro : recordOf e s1 a = p1 := by simp [recordOf, hp1]
+    rw [hro] at hfind
+    refine ⟨_, hfind, hb1, ?_⟩
+    have := hback _ hfind
+    simpa [hb1] using this
+
+/-- the deposit message keeps every provider backed -/
+theorem depositMsg_backed (e : Env) (s s' : State) (a : Addr) (coins : Coins) (h : depositMsg e s a coins = .ok s') :
+    Backed s' a := by
+  rcases depositMsg_ops e s s' a coins h with ⟨_, h2⟩ | ⟨_, s1, _, _, h2⟩
+  · exact deposit_backed e s s' a coins h2
+  · exact deposit_backed e s1 s' a coins h2
+
 /-! ## "funded" -/
 
 /-- what "funded" means for a user purchase: the single amount to pay is non-negative and within the payer's balance -/
@@ -866,6 +915,16 @@ def env : Env := { t := 100, bond := "uctk", modAddr := "mod", bondedAfter := fu
 def ledger : Ledger := { posts := [("alice", "uctk", 10000), ("ad", "uctk", 10000)], supply := [("uctk", 20000)] }
 
 example : free st = 900 ∧ fraction st = 450 := by decide
+
+/-- the repaired defect as an evaluation: "prov" holds collateral 1000 with 100 being withdrawn against a RECORDED stake of
+    950; a slash has left its delegations worth 920. A deposit of 50 fits the record (the deposit proper accepts it) but not
+    the stake: the message refuses it, and a deposit of 20 — which the stake does cover — is accepted. -/
+def envSlashed : Env := { env with bondedAfter := fun a => if a == "prov" then some 920 else none }
+example : Succeeds (deposit envSlashed st "prov" [("uctk", 50)]) := succeeds_of_isOk (by decide)
+example : ¬ Succeeds (depositMsg envSlashed st "prov" [("uctk", 50)]) := not_succeeds_of_isOk (by decide)
+example : Succeeds (depositMsg envSlashed st "prov" [("uctk", 20)]) := succeeds_of_isOk (by decide)
+example : findProvider st "prov" = some { addr := "prov", collateral := 1000, withdrawing := 100, bonded := 950, rewards := Dec.zero } ∧
+    envSlashed.bondedAfter "prov" = some 920 := by decide
 
 /-- paid purchase in pool 1: 150 reaches the configured fraction (300 + 150 = 450) and is accepted, 151 is refused -/
 example : Succeeds (purchase env ledger st 1 [("uctk", 150)] "alice" false) := succeeds_of_isOk (by decide)
